@@ -92,29 +92,65 @@ def r2_complete_records(chk, mapb):
     # names bound from bytes actually read
     read_names = {n for n, vals in asg.items() for v in vals if isinstance(v, ast.AST) and has_call(v, {"self._stream.read"})}
 
+    rec_cls = chk.prog.cls(f"{UKV}:UKVRecord")
+    rec_fields = [f["name"] for f in chk.prog.fields(rec_cls)]
+
+    def prop_deps(attr, _seen=()):
+        """fields of UKVRecord that property/field `attr` depends on"""
+        if attr in rec_fields:
+            return {attr}
+        mem = rec_cls.members.get(attr)
+        if mem is None or mem.getter is None or attr in _seen:
+            return set()
+        out = set()
+        for n in ast.walk(mem.getter):
+            if isinstance(n, ast.Attribute) and isinstance(n.value, ast.Name) and n.value.id == "self":
+                out |= prop_deps(n.attr, _seen + (attr,))
+        return out
+
+    def record_ctor(name):
+        vals = [v for v in asg.get(name, []) if isinstance(v, ast.AST)]
+        if len(vals) == 1 and isinstance(vals[0], ast.Call) and call_name(vals[0]) == "UKVRecord":
+            c = vals[0]
+            m = {}
+            for i, a in enumerate(c.args):
+                if i < len(rec_fields):
+                    m[rec_fields[i]] = a
+            for k in c.keywords:
+                m[k.arg] = k.value
+            return m
+        return None
+
     def declared_in(e):
         """which declared lengths an expression depends on"""
-        p = provenance(mapb.node, e, mapb.params(), asg)
-        ns = names_in(e)
         out = set()
-        # direct names or through locals (record = UKVRecord(pos, key_len, record_len))
-        todo, seen = list(ns), set()
+        todo, seen = [e], set()
         while todo:
-            n = todo.pop()
-            if n in seen:
+            x = todo.pop()
+            if isinstance(x, ast.Attribute) and isinstance(x.value, ast.Name) and record_ctor(x.value.id) is not None:
+                ctor = record_ctor(x.value.id)
+                for fld in prop_deps(x.attr):
+                    if fld == rec_fields[0]:
+                        continue  # the position is loop-carried, not a declared length
+                    if fld in ctor:
+                        todo.append(ctor[fld])
                 continue
-            seen.add(n)
-            if n == klen:
-                out.add("key")
-            if n == rlen:
-                out.add("value")
-            if n in read_names:
-                continue  # bytes read are 'actual', not 'declared'
-            for v in asg.get(n, []):
-                if isinstance(v, ast.AST):
-                    todo.extend(names_in(v))
-                elif isinstance(v, tuple) and isinstance(v[1], ast.AST) and v[0] != "iter":
-                    pass
+            if isinstance(x, ast.Name):
+                n = x.id
+                if n in seen:
+                    continue
+                seen.add(n)
+                if n == klen:
+                    out.add("key")
+                if n == rlen:
+                    out.add("value")
+                if n in read_names:
+                    continue  # bytes read are 'actual', not 'declared'
+                for v in asg.get(n, []):
+                    if isinstance(v, ast.AST):
+                        todo.append(v)
+                continue
+            todo.extend(ast.iter_child_nodes(x))
         return out
 
     def actual_in(e):
